@@ -9,7 +9,7 @@
    [PrefixFree text]: no proper prefix of the record's JSON text has the SHA-256 of the whole text — needed only for
    tears after the tab; a property of the hash on one string that no theorem can establish, hence a hypothesis
    visible in each statement.  Modelled, not verified: a single O_APPEND write(2) lands as a prefix of its bytes. *)
-From CC Require Import Bytes Codec Utf8 Lines Json Sri Record Fs Prog Api Crash BytesP CodecP LinesP FsP ProgP SriP RecordP IndexP ReadP WriteP CommitP RemoveP CrashP CrashIdxP.
+From CC Require Import Bytes Codec Utf8 Lines Json Sri Record Fs Prog Api Crash BytesP CodecP LinesP FsP ProgP SriP RecordP IndexP ReadP WriteP CommitP RemoveP CrashP CrashIdxP KeepP.
 
 Section C04.
 Variable hash : algo -> bytes -> bytes.
@@ -61,6 +61,21 @@ Theorem C04_crash_then_continue c (h : list hop) :
             = (Ok (fold_left spec_step h (abs_idx hash c) k), fold_left (exec_hop hash) h c).
 Proof. intros Hi Hw. exact (proj2 (find_refines_map hash h c Hi Hw)). Qed.
 
+(* every other key keeps its value — the content half: whatever a keyed write (any chunking) or a removal is killed at,
+   every content file that was there is still there with the same bytes (KeepP.v); the index half is in the theorems above *)
+Theorem C04_write_crash_keeps_content f fl key o cs now a0 d :
+  CacheInv f -> lookup f (InCache (cpath hash a0 d)) = Some (File d) ->
+  (InCache (cpath hash (algo_of o) (List.concat cs)) = InCache (cpath hash a0 d) -> List.concat cs = d) ->
+  Forall (fun g => lookup g (InCache (cpath hash a0 d)) = Some (File d)) (crash_states (stream_write hash fl key o cs now) f) /\
+  lookup (snd (run (stream_write hash fl key o cs now) f)) (InCache (cpath hash a0 d)) = Some (File d).
+Proof. intros H1 H2 H3. apply (stream_write_keeps hash HL); [eexists _, _; reflexivity|exact H1|exact H2|exact H3]. Qed.
+
+Theorem C04_remove_crash_keeps_content f key now a0 d :
+  lookup f (InCache (cpath hash a0 d)) = Some (File d) ->
+  Forall (fun g => lookup g (InCache (cpath hash a0 d)) = Some (File d)) (crash_states (insert hash key wopts0 now) f) /\
+  lookup (snd (run (insert hash key wopts0 now) f)) (InCache (cpath hash a0 d)) = Some (File d).
+Proof. intros H. apply (insert_keeps hash); [eexists _, _; reflexivity|exact H]. Qed.
+
 End C04.
 
 Definition toy_hash (a : algo) (d : bytes) : bytes :=
@@ -82,3 +97,5 @@ Print Assumptions C04_insert_crash.
 Print Assumptions C04_remove_crash.
 Print Assumptions C04_torn_append.
 Print Assumptions C04_crash_then_continue.
+Print Assumptions C04_write_crash_keeps_content.
+Print Assumptions C04_remove_crash_keeps_content.
